@@ -114,6 +114,14 @@ def run(e: Engine, rep: Report):
              'OSError the start-up scan is prepared for (the scan dies at '
              'the first envelope without meta)')
     r411(e, rep)
+    rep.rule('R4.12', 'what is handed to a greenlet is bound when it is '
+             'handed over: no function defined inside a loop of the queue '
+             'package reads that loop\'s variables freely and is given to '
+             'spawn / _pool_spawn / a callback (it runs after the loop has '
+             'moved on: every greenlet then works on the last entry, the '
+             'other entries that were taken off the timetable are never '
+             'looked at again)')
+    r412(e, rep)
     rep.floor('R4.1', 6, 'file-system write sites / ordering obligations')
 
 
@@ -773,3 +781,88 @@ def r411(e: Engine, rep: Report):
     if n < 2:
         rep.error('anchor vanished: keep-awake stops in AioFile (%d < 2)'
                   % n)
+
+
+# ------------------------------------------------------------------- R4.12
+DEFERRED_RUNNERS = {'spawn', 'spawn_later', '_pool_spawn', '_pool_run',
+                    'link', 'rawlink', 'link_value', 'link_exception',
+                    'start_later', 'apply_async', 'map_async', 'imap',
+                    'imap_unordered', 'Greenlet', 'call_later'}
+
+
+def r412(e: Engine, rep: Report, rule: str = 'R4.12'):
+    n = 0
+    bad = 0
+    for f in sorted(e.p.functions.values(), key=lambda f: f.qname):
+        if not f.module.name.startswith('slimta.queue') or \
+                f.parent is not None:
+            continue
+        for lp in walk_own(f.node):
+            if not isinstance(lp, (ast.For, ast.While)):
+                continue
+            lvars = set()
+            if isinstance(lp, ast.For):
+                lvars = {x.id for x in ast.walk(lp.target)
+                         if isinstance(x, ast.Name)}
+            # names (re)bound in the body count as well
+            for st in lp.body:
+                for x in ast.walk(st):
+                    if isinstance(x, ast.Name) and isinstance(
+                            x.ctx, ast.Store) and not any(
+                            isinstance(d, (ast.FunctionDef, ast.Lambda)) and
+                            any(y is x for y in ast.walk(d))
+                            for d in ast.walk(lp) if d is not lp):
+                        lvars.add(x.id)
+            closures = {}
+            for st in ast.walk(lp):
+                if isinstance(st, ast.FunctionDef) and st is not f.node:
+                    closures[st.name] = st
+            lambdas = [x for x in ast.walk(lp) if isinstance(x, ast.Lambda)]
+            for call in [x for x in ast.walk(lp) if isinstance(x, ast.Call)]:
+                fn = call.func
+                nm = fn.attr if isinstance(fn, ast.Attribute) else (
+                    fn.id if isinstance(fn, ast.Name) else None)
+                if nm not in DEFERRED_RUNNERS:
+                    continue
+                for a in list(call.args) + [k.value for k in call.keywords]:
+                    d = None
+                    if isinstance(a, ast.Name) and a.id in closures:
+                        d = closures[a.id]
+                    elif isinstance(a, ast.Lambda) and a in lambdas:
+                        d = a
+                    if d is None:
+                        continue
+                    n += 1
+                    rep.evaluations += 1
+                    params = {p.arg for p in d.args.args + d.args.kwonlyargs}
+                    if d.args.vararg:
+                        params.add(d.args.vararg.arg)
+                    body = d.body if isinstance(d.body, list) else [d.body]
+                    own = {x.id for b in body for x in ast.walk(b)
+                           if isinstance(x, ast.Name) and
+                           isinstance(x.ctx, ast.Store)}
+                    free = sorted({x.id for b in body for x in ast.walk(b)
+                                   if isinstance(x, ast.Name) and
+                                   isinstance(x.ctx, ast.Load) and
+                                   x.id in lvars and x.id not in params and
+                                   x.id not in own})
+                    if free:
+                        bad += 1
+                    rep.check(not free, rule, f.qname,
+                              'function handed to %s() inside a loop binds '
+                              'its data' % nm,
+                              'the function given to %s() reads %s of the '
+                              'enclosing loop as free variables: it runs '
+                              'after the loop has gone on, so every '
+                              'greenlet sees the values of the last '
+                              'iteration - the other entries, already '
+                              'taken off the timetable, are never '
+                              'dispatched' % (nm, ', '.join(
+                                  '`%s`' % x for x in free)),
+                              loc=f.loc(call),
+                              reason='no free loop variable')
+    rep.evaluations += 1
+    if n == 0:
+        rep.ok(rule, 'slimta.queue', 'no function defined in a loop is '
+               'handed to a deferred runner', reason='scan of the queue '
+               'package', nontrivial=False)
